@@ -25,7 +25,11 @@ def _replay(rep, r):
 def run(tier, seed):
     return run_property(
         "C09", tier, seed, level="other",
-        deductive=[("c01_step", r"C09\.raise|no_other_exception"), ("c07_clear", r"own_cleared|recursion_on_kth|iterates_over")],
+        deductive=[("c01_step", r"C09\.raise|no_other_exception"), ("c07_clear", r"own_cleared|recursion_on_kth|iterates_over"),
+                   # an in-place update hands EVERY recorded consumer of the updated tensor over to the placeholder that keeps the old value -- whatever
+                   # state the consumer's other inputs are in: a consumer left on the public tensor back-propagates through post-update values once its
+                   # cleared input is used again
+                   ("c04_graph", r"reroute")],
         bounded=[("state_bounded.py", ["--check", "C09"])],
         replay=_replay,
         trusted=["pyvc/graphdom.py heap model"],
